@@ -16,8 +16,10 @@ import (
 	ds "github.com/ipfs/go-datastore"
 	dssync "github.com/ipfs/go-datastore/sync"
 	"github.com/ipfs/ipfs-cluster/api"
+	"github.com/ipfs/ipfs-cluster/api/pb"
 	"github.com/ipfs/ipfs-cluster/consensus/raft"
 	"github.com/ipfs/ipfs-cluster/state/dsstate"
+	"google.golang.org/protobuf/proto"
 	"pgregory.net/rapid"
 )
 
@@ -125,7 +127,7 @@ func noPanic(t *rapid.T, what string, in []byte, f func()) {
 	f()
 }
 
-const ruleDec = "input = random bytes, a valid encoding of a generated value, or a valid encoding with 1-4 byte-level mutations (overwrite, bit flip, truncate, insert, delete); oracle: no panic; when the decoder accepts, the value re-encodes without error; when the accepted value is a well-formed pin the full round trip must be the identity; non-trivial = accepted by the decoder; distinct by input bytes"
+const ruleDec = "input = random bytes, a valid encoding of a generated value, a valid encoding with 1-4 byte-level mutations (overwrite, bit flip, truncate, insert, delete), or (protobuf) a well-formed message with hostile scalar field values; oracle: no panic; when the decoder accepts, the value re-encodes without error; when the accepted value is a well-formed pin the full round trip must be the identity; non-trivial = accepted by the decoder; distinct by input bytes"
 
 func TestDecodeProto(t *testing.T) {
 	leg := ev.L("decode-proto", "Pin.ProtoUnmarshal: "+ruleDec)
@@ -137,6 +139,44 @@ func TestDecodeProto(t *testing.T) {
 			}
 			return b
 		})
+		// a fifth of the inputs are well-formed messages whose scalar fields
+		// carry hostile values (the enum is open, the integers are signed)
+		if rapid.IntRange(0, 4).Draw(t, "fieldLevel") == 0 {
+			b, err := gen.Pin(cfg()).Draw(t, "pinf").ProtoMarshal()
+			if err != nil {
+				t.Fatal(err)
+			}
+			var m pb.Pin
+			if err := proto.Unmarshal(b, &m); err != nil {
+				t.Fatal(err)
+			}
+			i32 := []int32{-1, -2, -2147483648, 2147483647, 5, 31, 32, 63, 64, 1 << 20}
+			switch rapid.IntRange(0, 4).Draw(t, "hostileField") {
+			case 0:
+				m.Type = pb.Pin_PinType(rapid.SampledFrom(i32).Draw(t, "type"))
+			case 1:
+				m.MaxDepth = rapid.SampledFrom(i32).Draw(t, "depth")
+			case 2:
+				if m.Options == nil {
+					m.Options = &pb.PinOptions{}
+				}
+				m.Options.ReplicationFactorMin = rapid.SampledFrom(i32).Draw(t, "rmin")
+				m.Options.ReplicationFactorMax = rapid.SampledFrom(i32).Draw(t, "rmax")
+			case 3:
+				if m.Options == nil {
+					m.Options = &pb.PinOptions{}
+				}
+				m.Options.ExpireAt = rapid.SampledFrom([]uint64{1, 1 << 31, 1 << 62, 1<<64 - 1}).Draw(t, "expire")
+				m.Options.ShardSize = rapid.SampledFrom([]uint64{0, 1, 1<<64 - 1}).Draw(t, "shard")
+			default:
+				m.Cid = rapid.SampledFrom([][]byte{nil, {}, {0}, {1, 0x55}, {0x12, 0x20}}).Draw(t, "cidbytes")
+			}
+			in, err = proto.Marshal(&m)
+			if err != nil {
+				t.Fatal(err)
+			}
+			src = "hostile-fields"
+		}
 		accepted := false
 		noPanic(t, "ProtoUnmarshal/ProtoMarshal", in, func() {
 			var p api.Pin
@@ -172,7 +212,7 @@ func decTargets() []decTarget {
 	ts := []decTarget{
 		{"Pin", func() interface{} { return &api.Pin{} }, func(t *rapid.T) interface{} { return gen.Pin(cfg()).Draw(t, "v") }},
 		{"LogOp", func() interface{} { return &raft.LogOp{} }, func(t *rapid.T) interface{} {
-			return &raft.LogOp{Cid: gen.Pin(cfg()).Draw(t, "v"), Type: raft.LogOpType(rapid.IntRange(1, 2).Draw(t, "ty"))}
+			return &raft.LogOp{Cid: gen.Pin(cfg()).Draw(t, "v"), Type: rapid.SampledFrom([]raft.LogOpType{raft.LogOpPin, raft.LogOpUnpin}).Draw(t, "ty")}
 		}},
 	}
 	for _, rg := range recGens() {
